@@ -155,6 +155,11 @@ def run(ctx):
               "MatchedArg::check_explicit no longer rejects default-sourced values first")
 
 
+    # ---- R6.6b (shared with C07 R7.4) only command-line occurrences remove the records of overridden arguments
+    from rules.c07 import commandline_only
+    for c in psc.calls_to(r"Parser::remove_overrides$"):
+        res.check(commandline_only(psc, c), "R6.6", "overrides-only-commandline", c.where(), "env/default values never remove another argument's command-line values",
+                  "an occurrence from the environment or a default removes the records of the arguments it overrides (guard %s): command-line values are replaced by defaults" % guard_strs(psc, c.bb))
     # ---- R6.7 exactly one default
     ad = fx.body("clap_builder::parser::parser::Parser::add_default_value")
     rs = ad.calls_to(r"Parser::react$")
